@@ -40,10 +40,13 @@ class C02(Check):
     thorough = {"runs": 30000, "wall": 900, "item_timeout": 120}
 
     def gen(self, rng, tier, i):
-        cfg = calsim.gen_config(rng, rl_prob=0.2, extreme_prob=0.3)
+        cfg = calsim.gen_config(rng, rl_prob=0.2, extreme_prob=0.3, feature=calsim.SAMPLER_KINDS[i % 9])
         ops = [["calibrate", rng.randint(1, 4)] for _ in range(rng.randint(1, 4))]
         if rng.random() < 0.15:
             calsim.make_scripted_convergence(cfg, rng)
+        elif rng.random() < 0.25:
+            cfg["model"]["mutates"] = True          # the model writes into the parameter array it receives
+            cfg["ensemble"] = rng.choice([1, 1, 2])
         env = {"n_jobs": rng.choice([1, 1, 2, 4]), "verbose": rng.random() < 0.3, "folder": rng.random() < 0.2,
                }
         env["sched"], env["trace_lines"] = calsim.gen_sched(rng, cfg["scheduler"]["kind"] == "rl")
@@ -66,7 +69,7 @@ class C02(Check):
             1 for r, op in zip(sim.op_results, scn["ops"]) if not r["exc"] and r["snap"]["batch_index"] < 0 + sum(o[1] for o in scn["ops"][:scn["ops"].index(op) + 1]))
         for r in sim.op_results:
             if r["exc"]:
-                res.stats["exc:" + r["exc"][0] + ":" + r["exc"][1][:50]] += 1
+                res.stats["exc:" + r["exc"][0]] += 1
         if done >= 2:
             c = scn["config"]
             res.key = jdigest([[s["cls"] for s in c["lineup"]], [s["batch_size"] for s in c["lineup"]], c["loss"]["cls"],
